@@ -131,6 +131,18 @@ func c01CheckRecord(w *core.W, r *model.Rec, tag string) {
 	} else if !bytes.Equal(packed, wire) {
 		w.Violation("C01/pack-mismatch/"+tn+c01Class(r, nil), fmt.Sprintf("PackRR(%s)\n got  %s\n want %s (RFC layout)", tn, hx(packed), hx(wire)), wit)
 	}
+	// the same record packed into a caller buffer that still holds other data (a reused buffer)
+	if err == nil && bytes.Equal(packed, wire) {
+		dirty := bytes.Repeat([]byte{0xFF}, len(wire)+64)
+		d2, _ := buildAny(r)
+		var off int
+		var derr error
+		if !w.Guard("PackRR(dirty buffer)", wit, func() { off, derr = dns.PackRR(d2, dirty, 0, nil, false) }) {
+			if derr != nil || !bytes.Equal(dirty[:off], wire) {
+				w.Violation("C01/pack-into-used-buffer/"+tn+c01Class(r, derr), fmt.Sprintf("PackRR(%s) into a buffer holding 0xFF octets: err=%v\n got  %s\n want %s", tn, derr, hx(dirty[:min(off, len(dirty))]), hx(wire)), wit)
+			}
+		}
+	}
 	built, _ = buildAny(r) // fresh: PackRR rewrites Hdr.Rdlength
 	// (b) octets -> struct
 	var rr2 dns.RR
@@ -351,6 +363,17 @@ func c01Messages(w *core.W, j int) {
 			w.Violation("C01/msg-pack-error"+cls, fmt.Sprintf("Msg.Pack failed on a well-formed message: %v", err), wit)
 		} else if !bytes.Equal(packed, wire) {
 			w.Violation("C01/msg-pack-mismatch"+cls, "Msg.Pack differs from the RFC layout: "+diffWin(packed, wire), wit)
+		}
+		if err == nil && bytes.Equal(packed, wire) {
+			dirty := bytes.Repeat([]byte{0xFF}, len(wire)+64)
+			b2, _ := buildMsgAny(m)
+			var pb []byte
+			var perr error
+			if !w.Guard("Msg.PackBuffer(dirty buffer)", wit, func() { pb, perr = b2.PackBuffer(dirty) }) {
+				if perr != nil || !bytes.Equal(pb, wire) {
+					w.Violation("C01/msg-pack-into-used-buffer"+cls, fmt.Sprintf("Msg.PackBuffer into a buffer holding 0xFF octets: err=%v: %s", perr, diffWin(pb, wire)), wit)
+				}
+			}
 		}
 		m2 := new(dns.Msg)
 		in := append([]byte(nil), wire...)
